@@ -30,7 +30,7 @@ def coherent_pre(case, tr_s):
     state = rs.state_of_canon(pre)
     a_old, kw_old = rs.args_of_canon(pre)
     rctx = rs.RefCtx()
-    ref_old = rs.ref_eval(case.prog, state, list(a_old), dict(kw_old), rctx)
+    ref_old = rs.ref_eval(rs.recorded_view(case.prog), state, list(a_old), dict(kw_old), rctx)
     inv = solve.eq_trees(pre, ref_old.canon())
     return pre, state, a_old, kw_old, ref_old, [inv] + list(rctx.support)
 
@@ -89,7 +89,7 @@ def run_group(g, gid):
             if T2 is not None:
                 tr2, x2, a2, k2, oa2, ok2 = T2.ins
                 pre2, st2, a_old2, kw_old2, ref_old2, inv2 = coherent_pre(case, tr2)
-                tie = [solve.eq_trees((tuple(oa2), ok2), (tuple(a_old2), dict(kw_old2)))]
+                tie = [solve.eq_trees((rs.recorded_args(case.prog, tuple(oa2)), ok2), (tuple(a_old2), dict(kw_old2)))]
                 rc2 = rs.RefCtx()
                 rs.ref_eval(case.prog, rs.overwrite_state(case.prog, ref_old2.get_choices(), x2), list(a2), k2, rc2)
                 w_, w2_, backch = T2.outs
